@@ -29,6 +29,61 @@ def rule_wake_all(rep, rid, prog, fname, wake_callees=("_dispatch_futex_wake",))
         rep.require(rid, n == INT_MAX, c.loc, fname, "broadcast-wakes-%s:%s" % (n, fname),
                     "%s wakes %s waiter(s) instead of all (INT_MAX): with several blocked callers all but the first stay parked forever" % (fname, n),
                     sample={"fn": fname, "wake_count": n})
+        # ... and the count reaches the kernel as given: every wrapper between the broadcast and the futex system call passes it on unmodified
+        g = prog.fn(c.callee, required=False)
+        if g is not None:
+            bad = _count_modified(prog, g, 1, ())
+            if bad == "lost":
+                rep.unknown(rid, "%s: the wake count parameter of %s does not reach the system call" % (fname, c.callee))
+            else:
+                rep.require(rid, bad is None, (bad[1].loc if bad else c.loc), (bad[0].name if bad else g.name), "wake-count-altered-on-the-way:%s" % fname,
+                            "the number of waiters to wake that %s passes (all of them) is altered in %s before it reaches the futex system call (%s): when more "
+                            "callers are parked on the word than the altered count, the rest are never woken" % (fname, bad[0].name if bad else "", bad[1].op if bad else ""),
+                            sample={"fn": fname})
+
+
+def _count_modified(prog, g, k, seen):
+    """follow parameter k of wrapper g to the count argument of the futex system call; returns None if it arrives unmodified, (function, instruction) of the
+    first computation applied to it, or "lost" if it never arrives"""
+    if g.name in seen:
+        return None
+    def origin(o):
+        i = g.inst(o)
+        while i is not None and i.op in ("trunc", "zext", "sext", "bitcast"):
+            o = i.ops[0]
+            i = g.inst(o)
+        return tuple(o[:2]), i
+    def depends(o, depth=0):
+        t, i = origin(o)
+        if t == ("a", k):
+            return True
+        if i is None or depth > 6 or i.op in ("load", "call", "alloca"):
+            return False
+        ops = [v for v, frm in i.ops] if i.op == "phi" else i.ops
+        return any(depends(x, depth + 1) for x in ops if isinstance(x, (list, tuple)) and x and isinstance(x[0], str) and x[0] in ("i", "a"))
+    arrived = False
+    for c in g.all_insts():
+        if c.op != "call" or not c.callee:
+            continue
+        for j, a in enumerate(c.ops):
+            if not depends(a):
+                continue
+            t, i = origin(a)
+            if t != ("a", k):
+                return (g, i if i is not None else c)
+            if c.callee == "syscall":
+                arrived = True
+                continue
+            h = prog.fn(c.callee, required=False)
+            if h is None:
+                continue
+            r = _count_modified(prog, h, j, seen + (g.name,))
+            if r == "lost":
+                continue
+            if r is not None:
+                return r
+            arrived = True
+    return None if arrived else "lost"
 
 
 def rule_recheck_after_wait(rep, rid, prog, fname, field, waits, need_acquire=True, reload_ops=("load", "cmpxchg", "atomicrmw"), reload_calls=()):
